@@ -509,7 +509,9 @@ def run(ctx):
         if fmt_m is None or rm_m is None:
             continue
         def engine_calls(m_):
-            return sorted({c.func.attr for c in q.calls(m_) if isinstance(c.func, ast.Attribute) and is_self_attr(c.func.value) and c.func.attr not in ("colorized",)})
+            al = q.alias_roots(m_)
+            return sorted({c.func.attr for c in q.calls(m_) if isinstance(c.func, ast.Attribute) and (is_self_attr(c.func.value) or (isinstance(c.func.value, ast.Name) and c.func.value.id in al))
+                           and c.func.attr not in ("colorized",)})
         a_, b_ = engine_calls(fmt_m), engine_calls(rm_m)
         if a_ and a_ == b_:
             r.ok("%s: format and remove_format both go through %s" % (cls.name, ", ".join(a_)))
